@@ -126,9 +126,9 @@ def run(tier, seed, replay):
     rep.assumptions = ["values are compared to 1e-12 x (1 + max |entry|) (exact for ring operations on Gaussian integers), 1e-9 for expm / inv / sqrtm / solve / eigen / svd",
                        "auto_tidyup (default on, atol 1e-14) only drops stored zeros for integer data; the tidy-up threshold is exercised separately by tidyup with an explicit tolerance"]
     core.build_repo()
-    proved = core.prove(rep, ["Qv.Model.C01", "Qv.Props.C01"], "Qv.Props.C01")
+    proved = core.prove(rep, ["Qv.Model.C01", "Qv.Props.C01", "Qv.Props.C01Dia"], ["Qv.Props.C01", "Qv.Props.C01Dia"])
     if tier == "thorough":
-        core.leanchecker(rep, ["Qv.Props.C01"])
+        core.leanchecker(rep, ["Qv.Props.C01", "Qv.Props.C01Dia"])
     import qutip
     from qutip import data as _data
     rng = np.random.default_rng(seed)
